@@ -35,6 +35,12 @@ theorem last_action_is_root (hv : Valid G A first) (hs : Safe G A) (hf : FirstOK
   have := (actions_postorder hv hs hf hw h).1
   simpa [Tree.post] using this
 
+/-- The post-order property needs only the soundness conditions: it is an invariant of the machine
+(log = post-order of the values on the stack). So it also holds for precedence-resolved tables. -/
+theorem actions_postorder_safe (hs : Safe G A) {w : List Nat} {fuel : Nat} {t : Tree}
+    {lg : List (Nat × List Tree)} (h : run G A fuel (init w) = .acc t lg) : lg = t.post :=
+  sound_log hs h
+
 variable {nTerms nRules : Nat} {T : Tables} {cert : Array (List Item)}
 
 /-- **C03 for a validated artefact.** -/
